@@ -153,6 +153,8 @@ def _conform_filename(
             emit_func(
                 replacement_node_ir,
                 emit_default_doc=False,  # emit_func.__name__ == "class_"
+                # name (and, for functions, type) of the definition to create, as for an existing file
+                **_default_options(node=None, search=search, type_wanted=type_wanted)()
             ),
             filename=filename,
             mode="wt",
